@@ -89,6 +89,7 @@ func c08Candidates(name string, lvl int) []string {
 		}
 		out = append(out, "v1.0.0-rc.0", "v1.0.0-rc.1", "v1.0.0-rc.0.1", "v1.0.0-0", "v1.0.1-0", "v1.0.0-pseudo", "v1.0.0+incompatible", "v2.0.0+incompatible")
 	}
+	out = append(out, gen.SlotFamily(name)...)
 	return out
 }
 
